@@ -16,6 +16,7 @@ COMMON_ASSUMPTIONS = {
         'partial correctness only: termination, recursion depth and memory are not verified',
         'state naming: StateNamer is modelled as a total injective function from sets (pairs) of states to states of the same sort; this is a first-order (Henkin-model) assumption - a total injection from *all* sets is impossible by cardinality, the program only ever names finitely many sets - and every function proved under it carries a canary obligation (False must not be provable)',
         'extraction from source drops docstrings, annotations, comments; decorators @property/@staticmethod/@classmethod are interpreted',
+        'aliasing: a local bound to an attribute / subscript / other name of a mutable object is an alias and a mutation through it is refused (out-of-subset); sharing created by a method that returns an internal object is not modelled',
         'bounded parts say nothing beyond their stated scope and are never counted as proved',
     ],
 }
@@ -280,6 +281,13 @@ mixed2('C19', [('contracts.cfg_cache', 'CFGCounters._get_generating_or_nullable'
        ['the frame obligations speak about the abstract views only: caches outside the view (Regex._enfa, CFG._normal_form, index_cfg_converter attributes on State/Variable/StackSymbol objects, IndexedGrammar.marked) are covered by the bounded histories only',
         'in contracts/cfg_cache.py the contract of CFG._set_impacts_and_remaining_lists is assumed (it is proved in the other view, contracts/cfg_gen.py); _remaining_lists is viewed as symbol -> (index -> count) there and as symbol -> (length, array) in cfg_gen',
         'other caches (CFG._normal_form, Regex._enfa, converter indices) are not under contract'])
+
+mixed2('C08', [('contracts.cfg_gen', k) for k in ('CFGGen.generate_epsilon', 'CFGGen._set_impacts_and_remaining_lists')], ['bridge/count.lean'],
+       'Deductive for generate_epsilon, the branch of contains() / __contains__ for the empty word: it returns True exactly when the start symbol is in the least set of nullable symbols (the set closed under "head of a production whose body lies in the set", starting from nothing), for every grammar and iteration order, works on a copy of the memoised counters and leaves the tables as built; the table builder is proved with it.',
+       'contract-based deductive verification (pyvc + z3, Mathlib for the counting facts) of the empty-word branch of membership; bounded run-time contract checking (derivability oracle) for the CYK branch',
+       ['the CYK table (cyk_table.py) and to_normal_form, on which contains(w) for non-empty w rests, are not under contract',
+        'that "start symbol in the least nullable set" is "the start symbol derives the empty word" is the textbook characterisation (Hopcroft-Motwani-Ullman 7.1.3), assumed',
+        'counting facts (bridge/count.lean), induction principle of the least set (one instance), Python lists of ints viewed as (length, array); the start symbol is not a cfg.Epsilon object'])
 
 mixed2('C16', [('contracts.fst', k) for k in ('FST.add_transition', 'FST.add_start_state', 'FST.add_final_state', 'Renaming.add_state', 'Renaming.get_name', 'Renaming.add_states',
                                              'FST._add_transitions_to', 'FST._add_start_states_to', 'FST._add_final_states_to', 'FST._add_extremity_states_to', 'FST._copy_into',
